@@ -399,11 +399,73 @@ theorem cleanL_flat (ctx : Ctx) : (ps : List Pair) → CleanL ps → ∀ q ∈ f
     · exact cleanL_flat ctx ps h.2 q hq
 end
 
+/-- the validation loop finds nothing in a list of characters none of which is a `\u` escape -/
+theorem scanEscapes_noEscapes (ctx : Ctx) : ∀ (l : List Pair),
+    (∀ ch ∈ l, ch.rule ≠ R.EscapedUnicode4 ∧ ch.rule ≠ R.EscapedUnicodeBrace) → scanEscapes ctx none l = none := by
+  intro l
+  induction l with
+  | nil => intro _; rfl
+  | cons ch rest ih =>
+    intro h
+    obtain ⟨h1, h2⟩ := h ch (List.mem_cons_self ..)
+    simp only [scanEscapes, h1, h2, if_false]
+    exact ih fun x hx => h x (List.mem_cons_of_mem _ hx)
+
+mutual
+theorem cleanP_sub : (p : Pair) → CleanP p → ∀ q ∈ flat p, CleanP q
+  | .mk r s e cs => fun h q hq => by
+    simp only [flat, List.mem_cons] at hq
+    rcases hq with rfl | hq
+    · exact h
+    · simp only [CleanP] at h
+      exact cleanL_sub cs h.2.2 q hq
+theorem cleanL_sub : (ps : List Pair) → CleanL ps → ∀ q ∈ flatList ps, CleanP q
+  | [] => fun _ q hq => by simp [flatList] at hq
+  | p :: ps => fun h q hq => by
+    simp only [CleanL] at h
+    simp only [flatList, List.mem_append] at hq
+    rcases hq with hq | hq
+    · exact cleanP_sub p h.1 q hq
+    · exact cleanL_sub ps h.2 q hq
+end
+
+theorem cleanL_mem : ∀ {ps : List Pair}, CleanL ps → ∀ p ∈ ps, CleanP p := by
+  intro ps
+  induction ps with
+  | nil => intro _ p hp; cases hp
+  | cons x xs ih =>
+    intro h p hp
+    simp only [CleanL] at h
+    rcases List.mem_cons.mp hp with rfl | hp
+    · exact h.1
+    · exact ih h.2 p hp
+
+/-- the characters of a clean string pair are no `\u` escapes -/
+theorem clean_stringCharacters {q : Pair} (h : CleanP q) :
+    ∀ ch ∈ stringCharacters q, ch.rule ≠ R.EscapedUnicode4 ∧ ch.rule ≠ R.EscapedUnicodeBrace := by
+  cases q with
+  | mk r s e cs =>
+    intro ch hch
+    simp only [stringCharacters, Pair.children, List.mem_flatMap] at hch
+    obtain ⟨sc, hsc, hch⟩ := hch
+    simp only [CleanP] at h
+    have hsc' := cleanL_mem h.2.2 sc hsc
+    cases sc with
+    | mk r' s' e' cs' =>
+      simp only [CleanP] at hsc'
+      have := cleanL_mem hsc'.2.2 ch hch
+      cases ch with
+      | mk r'' s'' e'' cs'' =>
+        simp only [CleanP] at this
+        exact ⟨this.1, this.2.1⟩
+
 /-- a clean tree passes `validate_unicode_escapes` -/
 theorem firstBadEscape_clean (ctx : Ctx) (ps : List Pair) (h : CleanL ps) : firstBadEscape ctx ps = none := by
-  simp only [firstBadEscape, Option.map_eq_none_iff, List.find?_eq_none]
+  simp only [firstBadEscape, List.findSome?_eq_none_iff]
   intro q hq
-  simp [cleanL_flat ctx ps h q hq]
+  split
+  · rw [scanEscapes_noEscapes ctx _ (clean_stringCharacters (cleanL_sub ps h q hq))]; rfl
+  · rfl
 
 theorem cleanP_of {r s e : Nat} {cs : List Pair} (h1 : r ≠ R.EscapedUnicode4) (h2 : r ≠ R.EscapedUnicodeBrace)
     (h3 : CleanL cs) : CleanP (.mk r s e cs) := cleanP_mk.mpr ⟨h1, h2, h3⟩
